@@ -217,7 +217,7 @@ fn observe_colours(o: &SvgOptions) -> Result<([u8; 4], [u8; 4], [u8; 4]), String
 }
 
 /// applies `op` to (real, model); returns the findings of this transition
-fn step(real: &SvgOptions, model: &Model, op: &Op) -> (Option<SvgOptions>, Model, Vec<(String, String)>) {
+fn step_fn(real: &SvgOptions, model: &Model, op: &Op) -> (Option<SvgOptions>, Model, Vec<(String, String)>) {
     let mut f = vec![];
     crate::report::case_begin(&format!("setter {} on {:?}", op.to_json(), real));
     let applied = subject::guarded(|| op.apply(real.clone()));
@@ -362,7 +362,7 @@ pub fn replay(case: &Value) -> Result<Vec<(String, String)>, String> {
     let mut model = Model::default();
     let mut out = vec![];
     for op in &path {
-        let (n, m, f) = step(&real, &model, op);
+        let (n, m, f) = step_fn(&real, &model, op);
         out.extend(f);
         model = m;
         match n {
@@ -427,7 +427,7 @@ pub fn run(ctx: &Ctx) -> Collector {
             let (real, model, path) = &frontier[i];
             for (oi, op) in alpha.iter().enumerate() {
                 transitions.fetch_add(1, Ordering::Relaxed);
-                let (n, m, f) = step(real, model, op);
+                let (n, m, f) = step_fn(real, model, op);
                 let mut p2 = path.clone();
                 p2.push(op.clone());
                 for (k, w) in f {
@@ -457,6 +457,83 @@ pub fn run(ctx: &Ctx) -> Collector {
     col.sample(case_json(&[alpha[1].clone(), alpha[20].clone(), alpha[27].clone()], Some("HELLO WORLD")));
     col.sample(case_json(&[Op::ImageSize(5.0, 1.0)], Some("")));
 
+    // ---- entry-point call histories: all sequences of up to 3 (thorough 4) entry-point calls executed
+    // back to back on ONE thread; every result is compared with the native result for that call alone
+    // (the facade must not carry anything over from one call to the next)
+    {
+        let t1 = std::time::Instant::now();
+        let c1 = "HELLO WORLD";
+        let c2 = "hello, world! 0123456789";
+        #[derive(Clone)]
+        enum Call {
+            Qr(&'static str),
+            Svg(&'static str, Vec<Op>),
+        }
+        let calls: Vec<Call> = vec![
+            Call::Qr(c1),
+            Call::Qr(c2),
+            Call::Svg(c1, vec![]),
+            Call::Svg(c1, vec![Op::Version(5)]),
+            Call::Svg(c1, vec![Op::Version(40)]),
+            Call::Svg(c1, vec![Op::Ecl(3)]),
+            Call::Svg(c1, vec![Op::Ecl(2)]),
+            Call::Svg(c2, vec![]),
+            Call::Svg(c2, vec![Op::Version(5), Op::Margin(0)]),
+            Call::Svg(c1, vec![Op::Shape(1), Op::ModuleColor("#ff0000".into())]),
+        ];
+        let hd = if thorough { 4 } else { 3 };
+        let total = calls.len().pow(hd as u32);
+        let ncalls = AtomicU64::new(0);
+        pool::par_for(total, |idx| {
+            let mut seq = vec![];
+            let mut x = idx;
+            for _ in 0..hd {
+                seq.push(x % calls.len());
+                x /= calls.len();
+            }
+            seq.reverse();
+            // one fresh thread per history, so that per-thread state starts empty and the history is exact
+            let calls = calls.clone();
+            let seq2 = seq.clone();
+            let res = std::thread::Builder::new().stack_size(16 << 20).spawn(move || {
+                crate::subject::install_panic_hook();
+                let mut findings: Vec<(String, String, Value)> = vec![];
+                for (step, &ci) in seq2.iter().enumerate() {
+                    let f = match &calls[ci] {
+                        Call::Qr(c) => compare_qr(c).into_iter().map(|(k, w)| (k, w, json!({"kind": "wasm-qr", "content": c}))).collect::<Vec<_>>(),
+                        Call::Svg(c, path) => {
+                            let mut real = SvgOptions::new();
+                            let mut model = Model::default();
+                            for op in path {
+                                let (n, m, _) = step_fn(&real, &model, op);
+                                model = m;
+                                if let Some(n) = n {
+                                    real = n;
+                                }
+                            }
+                            compare_svg(&real, &model, c).into_iter().map(|(k, w)| (k, w, case_json(path, Some(c)))).collect::<Vec<_>>()
+                        }
+                    };
+                    for (k, w, case) in f {
+                        findings.push((format!("history-{}", k), format!("call {} of the entry-point history {:?}: {}", step, seq2, w), case));
+                    }
+                }
+                findings
+            });
+            ncalls.fetch_add(hd as u64, Ordering::Relaxed);
+            col.eval(Some(crate::util::fnv(format!("h{:?}", seq).as_bytes())));
+            match res.map(|h| h.join()) {
+                Ok(Ok(f)) => {
+                    for (k, w, case) in f {
+                        col.violation((15, idx as u64), format!("C17/{}", k), w, json!({"kind": "wasm-history", "sequence": seq, "failing_call": case}));
+                    }
+                }
+                _ => col.violation((15, idx as u64), "C17/history-panic".into(), format!("entry-point history {:?} panicked outside catch_unwind", seq), json!({"kind": "wasm-history", "sequence": seq})),
+            }
+        });
+        col.space(json!({"name": "entry-point call histories", "cases": total, "calls": ncalls.load(Ordering::Relaxed), "depth": hd, "alphabet": calls.len(), "what": "all sequences of entry-point calls {qr(c1), qr(c2), qr_svg(c1|c2, 8 option sets incl. forced versions 5/40 and levels)} of exactly that depth, each history on its own fresh thread, every call compared with the native result", "exhaustive": true, "wall_s": (t1.elapsed().as_secs_f64() * 100.0).round() / 100.0}));
+    }
+
     // ---- all short strings over {# 0 f g é} through each colour setter (depth 1)
     let al = ['#', '0', 'f', 'g', '\u{e9}'];
     let mut strings: Vec<String> = vec![String::new()];
@@ -481,7 +558,7 @@ pub fn run(ctx: &Ctx) -> Collector {
                 1 => Op::Background(strings[i].clone()),
                 _ => Op::ImageBackground(strings[i].clone()),
             };
-            let (n, m, f) = step(&root, &model0, &op);
+            let (n, m, f) = step_fn(&root, &model0, &op);
             col.eval(Some(crate::util::fnv(format!("{:?}{:?}", m, which).as_bytes())));
             let mut all = f;
             if let Some(n) = n {
